@@ -298,3 +298,71 @@ def r07_1_symmetry(ctx, eng: SiblingEngine, rule: str = 'R07.1', want_modes=('sy
                 continue
             obs.extend(se.kernel_obligations(k, mode, rule, negs, rk))
     return obs
+
+
+
+def add_kernel_symmetry(ctx, eng: SiblingEngine, rule: str = 'R09.8', classes: Optional[Set[str]] = None) -> List[Ob]:
+    """Operand-swap symmetry of the add kernels: sigma(P) == P with (x1,y1..) <-> (x2,y2..) - a sufficient static argument for
+    f.add(g) and g.add(f) computing the same arrays (commutativity), and a mirror check of the two tail-copy branches."""
+    from .rules_siblings import add_kernel_lens, _lens_for
+    obs: List[Ob] = []
+    for fam in eng.families:
+        if not fam.wrapper.cls or (classes is not None and fam.wrapper.cls not in classes):
+            continue
+        # precondition asserted by the wrapper: same first and last breakpoint
+        asserts = [ast.unparse(n.test).replace(' ', '') for n in ast.walk(fam.wrapper.node) if isinstance(n, ast.Assert)]
+        pre_ok = any('self.x[0]==' in a for a in asserts) and any('self.x[-1]==' in a for a in asserts)
+        t0 = f"{fam.wrapper.name}: asserts that both operands start and end at the same breakpoint (premise of the operand symmetry)"
+        obs.append(ok(rule, t0, fam.wrapper.loc(), construct=f"{_fn(fam.wrapper)}::same-interval") if pre_ok else
+                   violation(rule, t0, fam.wrapper.loc(), key=f"{_fn(fam.wrapper)}::same-interval-assert"))
+        for k in (fam.py, fam.pyx):
+            roles, _ = eng.roles_of(k)
+            fn = _fn(k)
+            t = f"{k.name} ({k.path}): exchanging the two operands leaves the result unchanged (sigma(P) == P): f+g == g+f, and the two tail-copy branches mirror each other"
+            if roles is None or not roles.ok:
+                obs.append(inconclusive(rule, t, k.loc(), 'add-merge idiom premises not established', construct=f"{fn}::sigma"))
+                continue
+            ps = [a.arg for a in k.node.args.args]
+            half = len(ps) // 2
+            ren: Dict[str, str] = {}
+            for a_, b_ in zip(ps[:half], ps[half:]):
+                ren[a_] = b_
+                ren[b_] = a_
+            names = {n.id for n in ast.walk(k.node) if isinstance(n, ast.Name)}
+            for nm in sorted(names):
+                if nm in ren:
+                    continue
+                m = re.fullmatch(r"(\D+)1", nm)
+                if m and f"{m.group(1)}2" in names:
+                    ren[nm] = f"{m.group(1)}2"
+                    ren[f"{m.group(1)}2"] = nm
+            rel = add_kernel_lens(fam)
+            a = Side(k, label='P')
+            b = Side(k, rename=ren, label='sigma(P)')
+            if rel:
+                a.lens = _lens_for(k, rel, {})
+                b.lens = _lens_for(k, rel, ren)
+            cmp = Comparer(a, b, cursors=[roles.c1, roles.c2], allow_reorder=True, title=f"{k.name} vs operand swap")
+            cmp.skip_signature = True
+            x1, x2 = ps[0], ps[half]
+            ln1 = C.atom(('call', 'len', (C.atom(('n', x1)),)))
+            ln2 = C.atom(('call', 'len', (C.atom(('n', x2)),)))
+            if pre_ok:
+                cmp.initial_facts = {('sub', ('n', x2), C.sub(ln2, C.ONE)): C.atom(('sub', ('n', x1), C.sub(ln1, C.ONE))),
+                                     ('sub', ('n', x2), C.ZERO): C.atom(('sub', ('n', x1), C.ZERO))}
+            try:
+                cmp.run()
+            except (Inconclusive, C.CanonError) as e:
+                obs.append(inconclusive(rule, t, k.loc(), str(e), construct=f"{fn}::sigma"))
+                continue
+            seen = set()
+            for m_ in cmp.mismatches:
+                if m_.key() in seen:
+                    continue
+                seen.add(m_.key())
+                obs.append(violation(rule, t + f": {m_.what}", f"{m_.loc_a} / {m_.loc_b}",
+                                     key=f"{fn}::operand-sigma::{m_.kind}::{m_.what}::{m_.form_a}::{m_.form_b}",
+                                     detail=f"P:        {m_.form_a}\nsigma(P): {m_.form_b}\nin: {m_.ctx}", construct=f"{fn}::sigma::{m_.ctx}"))
+            if not cmp.mismatches:
+                obs.append(ok(rule, t, k.loc(), construct=f"{fn}::sigma", points=cmp.points, detail=f"{cmp.points} aligned points"))
+    return obs
